@@ -6,7 +6,7 @@ import itertools
 import numpy as np
 
 from .. import gen, ref
-from ..core import FAILED
+from ..core import FAILED, fresh_result
 
 GROUPS = ["bell", "gen_bell", "max_entangled", "ghz", "w_state", "dicke", "werner", "werner_list", "isotropic", "horodecki", "tile_domino", "mub", "bases",
           "singlet_breuer", "brauer", "misc_states", "pbr", "pauli", "gen_pauli", "clock_shift", "gell_mann", "gen_gell_mann", "hadamard_cnot_cyclic"]
@@ -50,7 +50,9 @@ def close(a, b, tol=1e-9):
 
 
 def _call(ctx, fn, *a, **k):
-    v = ctx.call(fn, *a, **k)
+    # every constructor call doubles as a history check: the returned array belongs to the caller (overwriting it must not change what the
+    # same call returns next, and the two results must not share memory)
+    v = fresh_result(ctx, "H1:fresh-result", fn, a, k)
     return None if v is FAILED else v
 
 
